@@ -18,12 +18,15 @@ CONSTANTS Lists,      \* identifiers of measurement lists
           Totals,     \* identifiers of totals ("none" or a number tag)
           Engines,    \* {"MD", "RDA", "IG"}
           Depth,
-          WarmModes   \* subset of BOOLEAN to explore
+          WarmModes,  \* subset of BOOLEAN to explore
+          Callbacks   \* observers handed to estimate(callback=...): "none", "counter", "logger" (callbacks.Logger)
 
 VARIABLES warm, hist, fields, handed, writtenAfterHandOff, leaked
 vars == <<warm, hist, fields, handed, writtenAfterHandOff, leaked>>
 
-Calls == [l : Lists, t : Totals, s : Engines]
+Calls == [l : Lists, t : Totals, s : Engines, cb : Callbacks]
+\* what the result of a call is a function of: the observer is NOT part of it (a callback only reads the iterates)
+Args(c) == [l |-> c.l, t |-> c.t, s |-> c.s]
 EngineFields == {"model", "groups", "history"}
 CallerObjects == {"measurement_list", "Q_y_arrays", "zero_spec", "options_arg"}
 
@@ -38,7 +41,7 @@ Estimate(c) ==
   /\ Len(hist) < Depth
   /\ LET k == Len(hist) + 1
          stale == {f \in Reads(warm) : fields[f] # 0}
-     IN  /\ hist' = Append(hist, [call |-> c, k |-> k, dependsOn |-> {fields[f] : f \in stale}])
+     IN  /\ hist' = Append(hist, [call |-> c, k |-> k, resultOf |-> Args(c), dependsOn |-> {fields[f] : f \in stale}])
          /\ leaked' = (leaked \/ (~warm /\ stale # {}))
          /\ fields' = [fields EXCEPT !["model"] = k, !["groups"] = k]
          /\ handed' = handed \cup {k}                      \* the model object of call k goes to the caller
@@ -54,4 +57,6 @@ Spec == Init /\ [][Next]_vars
 Emit == Len(hist) = Depth => PrintT(<<"EMIT", ToJson([warm |-> warm, calls |-> [i \in DOMAIN hist |-> hist[i].call]])>>)
 HistoryFree == ~leaked /\ (~warm => \A i \in DOMAIN hist : hist[i].dependsOn = {})
 SnapshotsStable == writtenAfterHandOff = {}
+\* an observer never changes what is computed: equal arguments give equal results whatever the callback
+ObserverTransparent == \A i, j \in DOMAIN hist : Args(hist[i].call) = Args(hist[j].call) => hist[i].resultOf = hist[j].resultOf
 =============================================================================
